@@ -15,7 +15,7 @@ from fractions import Fraction
 import numpy as np
 
 from symx import core, harness, loader, runner, solve
-from symx.explore import Explorer
+from symx.explore import Explorer, PathError
 from . import common_gemini as cg
 
 PROP = "C01"
@@ -55,10 +55,29 @@ def job(label, n, Kc, via="evaluate", timeout_q=20.0, max_paths=4000):
 
     ex = Explorer(max_paths=max_paths)
     rng = random.Random(1)
-    for (impl, orc), pc, trace in ex.run(body, setup):
+    for out, pc, trace in ex.run(body, setup):
         res["paths"] += 1
         kind, ovo = state["kind"], state["ovo"]
         tag = f"{label}/{via}/n{n}K{Kc}/path{res['paths']}"
+        if isinstance(out, PathError):
+            # the engine could not execute this path: fall back to a concrete comparison at a witness of the path
+            v, wmodel = harness.reachable(pc, timeout_s=10.0)
+            ob = {"name": tag + "/path-error", "verdict": "inconclusive", "how": repr(out)[:200]}
+            if v == "unsat":
+                continue
+            if v == "sat":
+                rep = {"label": label, "via": via, "n": n, "K": Kc, "model": {k: str(x) for k, x in wmodel.items() if k[0] in "pam"}}
+                try:
+                    bad = replay(rep)
+                except Exception as e:   # the real code raises on a valid input: that is a finding too
+                    bad = True
+                    rep["exception"] = f"{type(e).__name__}: {e}"
+                if bad:
+                    res["violations"].append({"signature": f"{PROP}:{label.replace('reg:', '')}:score",
+                                              "what": f"{label} via {via}: score differs from the documented definition at n={n},K={Kc} (concrete fallback)", "replay": rep})
+            res["obligations"].append(ob)
+            continue
+        impl, orc = out
         impl = core.to_rat(np.asarray(impl, dtype=object).reshape(-1)[0]) if isinstance(impl, np.ndarray) else core.to_rat(impl)
         # vacuity guard: this path must be reachable
         v, wmodel = harness.reachable(pc, timeout_s=10.0)
@@ -131,11 +150,15 @@ def replay(rep, verbose=False):
     P, A = cg.concrete_inputs(model, n, Kc, kind)
     if P.min() <= cg.EPS or P.max() >= 1 - cg.EPS:
         return False
-    real = float(gem(P, A) if rep.get("via") == "call" else gem.evaluate(P, A))
-    ref = cg.float_oracle(kind, ovo, P, A)
-    if verbose:
-        print(f"P={P.tolist()} A={None if A is None else A.tolist()} library={real!r} definition={ref!r}")
-    return not (abs(real - ref) <= TOL * max(1.0, abs(ref)))
+    for Ac in cg.affinity_candidates(kind, n, A):
+        real = float(gem(P, Ac) if rep.get("via") == "call" else gem.evaluate(P, Ac))
+        ref = cg.float_oracle(kind, ovo, P, Ac)
+        bad = not (abs(real - ref) <= TOL * max(1.0, abs(ref)))
+        if verbose:
+            print(f"P={P.tolist()} A={None if Ac is None else Ac.tolist()} library={real!r} definition={ref!r} {'MISMATCH' if bad else 'ok'}")
+        if bad:
+            return True
+    return False
 
 
 def jobs(tier):
